@@ -59,7 +59,7 @@ class Schedules(Suite):
         k = 0
         for D in Ds:
             for tr in ("none", "burst", "flood"):
-                for tie in ("events", "timers"):
+                for tie in ("events", "timers", "io"):
                     for c in [None] + places:
                         for r in [None] + places[:: (3 if budget == "quick" else 1)]:
                             k += 1
@@ -74,10 +74,19 @@ class Schedules(Suite):
                                 case["cancelAt"] = c
                             out.append(G.place(case))
         # cancelled before sending / token present but never fired
-        for tie in ("events", "timers"):
+        for tie in ("events", "timers", "io"):
             for ev in ([], [[0, G.sym_event("N")]], [[5, {"k": "resp", "id": "$ID", "p": {"x": 1}}]]):
                 out.append(G.place({"id": {"s": "abc"}, "method": "m", "params": None, "D": 2 * P, "tie": tie, "pre": True, "ev": [list(e) for e in ev]}))
                 out.append(G.place({"id": {"s": "abc"}, "method": "m", "params": None, "D": 2 * P, "tie": tie, "hasToken": True, "ev": [list(e) for e in ev]}))
+        # progress with a params dict that already carries a (stale) progress token: the request must
+        # go out with the token the callback is registered under, and notifications bearing it count
+        for tie in ("events", "io"):
+            for stale in ("stale-token", 0, ""):
+                out.append(G.place({"id": {"s": "abc"}, "method": "tools/call", "params": {"_meta": {"progressToken": stale}, "x": 1},
+                                    "D": 2 * P, "tie": tie, "progress": True,
+                                    "ev": [[5, G.sym_event("G", k=1)], [9, G.sym_event("G", k=2)],
+                                           [12, {"k": "progress", "token": {"s": "stale-token"}, "progress": 0.9}],
+                                           [40, {"k": "resp", "id": "$ID", "p": {"ok": True}}]]}))
         # progress streams
         rng = ctx.sub_rng("c14-progress", budget)
         n = 6000 if budget == "quick" else 150000
